@@ -1235,7 +1235,8 @@ class Oracles:
         if rm.kind in ("apply", "start"):
             want_a = tuple(rm.args or ())
             want_k = dict(rm.kwargs or {})
-            return len(c.args) == len(want_a) and all(x is y for x, y in zip(c.args, want_a)) and \
+            same = (lambda x, y: x == y) if getattr(rm, "args_eq", False) else (lambda x, y: x is y)
+            return len(c.args) == len(want_a) and all(same(x, y) for x, y in zip(c.args, want_a)) and \
                 set(c.kwargs) == set(want_k) and all(c.kwargs[k] is want_k[k] for k in want_k)
         if c.idx >= len(rm.elements):
             return False
